@@ -48,6 +48,9 @@ const (
 // ErrInvalidKey is returned when the input led to an invalid private or public key.
 var ErrInvalidKey = errors.New("invalid key")
 
+// ErrNotHardened is returned when ExtendedKey.DeriveChild is called with a non-hardened index on a key that only supports hardened derivation.
+var ErrNotHardened = errors.New("only hardened derivation is supported")
+
 // ErrHardenedChildPublicKey is returned when ExtendedKey.DeriveChild is called with a hardened index on a public key.
 var ErrHardenedChildPublicKey = errors.New("cannot create hardened child from public parent key")
 
@@ -163,6 +166,11 @@ func (e *ExtendedKey) DeriveChild(index uint32) (*ExtendedKey, error) {
 		}
 		inter = h.Sum(inter[:0])
 	} else {
+		// some curves, like ed25519, only define hardened child keys
+		if k, ok := e.Key.(interface{ HardenedOnly() bool }); ok && k.HardenedOnly() {
+			return nil, ErrNotHardened
+		}
+
 		// I = HMAC-SHA512(Key = chain_par, Data = ser_P(public_par) || ser32(index)),
 		// where public_par = key_par if par is a public key, or public_par = point(key_par) otherwise
 		h, err := hmacSHA512(e.ChainCode, e.Key.Public().Bytes(), uint32Bytes(index))
